@@ -74,7 +74,9 @@ type badOp struct{ msg string }
 
 func bad(format string, a ...interface{}) { panic(badOp{fmt.Sprintf(format, a...)}) }
 
-var leafKinds = []string{"rx", "sv", "svr", "ts", "tm", "uri", "ty", "td"}
+// "tx": a type that cannot be written as a type string (it holds an Object type): it travels as an instance of its meta
+// type, attribute by attribute — outside the model, judged by the round trip on the implementation
+var leafKinds = []string{"rx", "sv", "svr", "ts", "tm", "uri", "ty", "td", "tx"}
 
 func isLeafKind(k string) bool {
 	for _, x := range leafKinds {
@@ -329,7 +331,7 @@ func (b *builder) leaf(kind, enc string) px.Value {
 		return types.ParseTimestamp(enc, types.DefaultTimestampFormats, "")
 	case "uri":
 		return types.WrapURI2(enc)
-	case "ty", "td":
+	case "ty", "td", "tx":
 		if t, ok := b.types[enc]; ok {
 			return t
 		}
@@ -594,7 +596,7 @@ func classify(n *node, f *facts, seen map[*node]bool, strs map[string]int) {
 			f.shared = true
 		}
 	}
-	if n.kind == "tdef" && n.init == nil {
+	if (n.kind == "tdef" && n.init == nil) || (n.kind == "l" && n.lk == "tx") {
 		f.implOnly = true
 	}
 	if n.kind == "o" || n.kind == "tdef" {
@@ -1067,6 +1069,11 @@ func ser(c px.Context, o opts, cp caps, vs sx.Sexp) core.Result {
 	// serialize into the recording consumer
 	rec := newRecorder(cp.bin, cp.cplx, int(cp.thr))
 	if err := safely(func() { serialization.NewSerializer(c, serOptions(o)).Convert(v, rec) }); err != nil {
+		if strings.Contains(fmt.Sprint(err), "attribute Pcore::StructElement[") {
+			// known finding C10-struct-type-with-object-member: a Struct type that holds an Object type has no type string
+			// and the members of its meta type cannot be read
+			return fail("ser-panic", "struct-element-no-reader", fmt.Sprint(err))
+		}
 		return fail("ser-panic", "ser-panic", fmt.Sprint(err))
 	}
 	if len(rec.stack) != 1 || len(rec.stack[0]) != 1 {
@@ -1252,7 +1259,7 @@ func diffKind(a, b px.Value) string {
 }
 
 var leafTypeName = map[string]string{"rx": "Regexp", "sv": "SemVer", "svr": "SemVerRange", "ts": "Timespan", "tm": "Timestamp",
-	"uri": "URI", "ty": "Type", "td": "Type"}
+	"uri": "URI", "ty": "Type", "td": "Type", "tx": "Type"}
 
 // codec (implementation only): the real leaf codec on its own — what the deserializer does with {__ptype: T, __pvalue: s}
 // is ParseTypeValue(T) and px.New(type, s); the result must equal the original and print the same serialization string
